@@ -10,8 +10,13 @@ Section Top.
 Variable (n : nat) (R : realDomainType).
 Implicit Types (a b : parr R) (o : opts).
 
-Definition code_ok (code : cmp_code) (init : option cop) (loop : cop) : Prop :=
-  [/\ cc_init code = init, cc_loop code = loop & mask_ok code].
+(* a comparison loop is as assumed when: its initial verdict on equal operands is [refl], its
+   loop comparison is, on different operands, the strict comparison [loop], and its mask selects
+   exactly the terms at which the operands differ *)
+Definition code_ok (code : cmp_code) (refl : bool) (loop : cop) : Prop :=
+  [/\ init_refl code = refl, strict (cc_loop code) = loop & mask_ok code].
+Definition select_ok (code : cmp_code) (loop : cop) : Prop :=
+  [/\ cc_init code = None, strict (cc_loop code) = loop & mask_ok code].
 
 (* what alignment guarantees *)
 Record aligned_pair o a b (a' b' : parr R) (s : seq nat) : Prop := AlignedPair {
@@ -59,8 +64,8 @@ Theorem order_descending :
 Proof. by rewrite rev_sorted; apply: glexsort_sorted. Qed.
 
 Variables (cgt cge clt cle : cmp_code).
-Hypotheses (okgt : code_ok cgt (Some CGt) CGt) (okge : code_ok cge (Some CGe) CGe)
-           (oklt : code_ok clt (Some CLt) CLt) (okle : code_ok cle (Some CLe) CLe).
+Hypotheses (okgt : code_ok cgt false CGt) (okge : code_ok cge true CGt)
+           (oklt : code_ok clt false CLt) (okle : code_ok cle true CLt).
 
 Let verdict code i := nth false (cmp_cols code order (cols a') (cols b') (psize a')) i.
 Let veq i := all (fun k => cell (cols a') k i == cell (cols b') k i) (iota 0 N).
